@@ -16,10 +16,12 @@ func init() {
 		Rule: "one case = (packet of the C01 space, source: built through the API or decoded from its wire image, side that is mutated, one mutation); non-trivial = the packet has at least one of payload / CSRC / extension element",
 		Assumptions: []string{
 			"mutations: overwrite every payload byte; overwrite every CSRC entry; overwrite every byte of one extension value through the slice GetExtension returns; SetExtension of an existing id; SetExtension of a new id; DelExtension of the first / last id; overwrite of the decoded-from buffer; append within capacity to payload and CSRC; SetExtension of different new ids on both sides; each also from the start state in which every extension was deleted before cloning (empty list with spare capacity)",
+			"decoded packets whose extension block repeats an id (the decoder keeps both elements): one-byte and two-byte blocks of 2-4 elements over ids {1,2} x value lengths {1,2}; the clone is compared with the original directly (ids, values, serialisation) and then changed",
 			"packet space: C01 quick space (quick) / C01 thorough space (thorough), plus the many-element / large packets of C01",
 		},
 		Scenarios: []mc.Scenario{
 			{Name: "clone-then-mutate", Tiers: "qt", ShardDepth: 4, Run: c20Run},
+			{Name: "clones-of-decoded-packets-with-repeated-ids", Tiers: "qt", ShardDepth: 3, Run: c20Repeated},
 		},
 	})
 }
@@ -242,4 +244,84 @@ func c20Run(c *mc.Ctx) {
 		c.NonTrivial()
 	}
 	c.Outcome(fmt.Sprintf("mut=%d", mut))
+}
+
+// c20Repeated: packets as the decoder delivers them when a block repeats an id. No model says
+// what such a packet "is": the clone is compared with the original itself.
+func c20Repeated(c *mc.Ctx) {
+	twoByte := c.Bool()
+	n := 2 + c.Pick(3)
+	var body []byte
+	desc := ""
+	for i := 0; i < n; i++ {
+		id := uint8(1 + c.Pick(2))
+		l := 1 + c.Pick(2)
+		val := fill(l, byte(0x10*(i+1)))
+		if twoByte {
+			body = append(body, id, byte(l))
+		} else {
+			body = append(body, id<<4|byte(l-1))
+		}
+		body = append(body, val...)
+		desc += fmt.Sprintf(" %d:%s", id, hx(val))
+	}
+	for len(body)%4 != 0 {
+		body = append(body, 0)
+	}
+	img := []byte{0x90, 0x60, 0, 1, 0, 0, 0, 2, 0, 0, 0, 3, 0xBE, 0xDE, 0, byte(len(body) / 4)}
+	if twoByte {
+		img[12], img[13] = 0x10, 0x00
+	}
+	img = append(append(img, body...), 0xAA, 0xBB)
+	if c.Verbose() {
+		c.Notef("decoded packet with elements%s (two-byte form %v)", desc, twoByte)
+	}
+	p := &rtp.Packet{}
+	if err := p.Unmarshal(clone(img)); err != nil {
+		return // not this property's business
+	}
+	want, err := p.Marshal()
+	if err != nil {
+		return
+	}
+	want = clone(want)
+	ids := p.GetExtensionIDs()
+	var vals [][]byte
+	for _, id := range ids {
+		vals = append(vals, clone(p.GetExtension(id)))
+	}
+	check := func(what string, q interface {
+		GetExtensionIDs() []uint8
+		GetExtension(uint8) []byte
+	}) {
+		qi := q.GetExtensionIDs()
+		if !bytes.Equal(qi, ids) {
+			c.Failf("clone-differs", "elements%s: %s reports ids %v, the original %v", desc, what, qi, ids)
+		}
+		for k, id := range ids {
+			if !bytes.Equal(q.GetExtension(id), vals[k]) {
+				c.Failf("clone-differs", "elements%s: %s reports %s for id %d, the original %s", desc, what, hx(q.GetExtension(id)), id, hx(vals[k]))
+			}
+		}
+	}
+	cl := p.Clone()
+	hcl := p.Header.Clone()
+	c.Ops(2)
+	check("Packet.Clone()", cl)
+	check("Header.Clone()", &hcl)
+	if b, err := cl.Marshal(); err != nil || !bytes.Equal(b, want) {
+		c.Failf("clone-differs", "elements%s: the clone serialises to %s (%v), the original to %s", desc, hx(b), err, hx(want))
+	}
+	if hb, err := hcl.Marshal(); err != nil || !bytes.Equal(hb, want[:len(hb)]) {
+		c.Failf("clone-differs", "elements%s: the header clone serialises to %s (%v), the original to %s", desc, hx(hb), err, hx(want))
+	}
+	// changing the clone leaves the original alone
+	_ = cl.SetExtension(1, []byte{0xEE})
+	_ = cl.DelExtension(2)
+	scribble(cl.Payload)
+	if b, err := p.Marshal(); err != nil || !bytes.Equal(b, want) {
+		c.Failf("shared-memory", "elements%s: after changing the clone the original serialises to %s (%v), it was %s", desc, hx(b), err, hx(want))
+	}
+	c.NonTrivial()
+	c.Outcome(fmt.Sprintf("two-byte=%v n=%d", twoByte, n))
 }
